@@ -73,7 +73,7 @@ def matches(f, ev, window="strict"):
                 return False
         elif not ev["created_at"] >= s:
             return False
-    if u is not None and u != 0:
+    if u is not None:  # until = 0 is a real bound (nothing after 1970-01-01), unlike since = 0 which bounds nothing
         if window == "strict":
             if not ev["created_at"] < u:
                 return False
@@ -88,7 +88,7 @@ def matches(f, ev, window="strict"):
 
 def on_boundary(f, ev):
     return (f.get("since") and ev["created_at"] == f["since"]) or (
-        f.get("until") and ev["created_at"] == f["until"])
+        f.get("until") is not None and ev["created_at"] == f["until"])
 
 
 # ------------------------------------------------------------------------------------------------
